@@ -4,7 +4,10 @@
 def _race_streams(tier):
     # 258 = 2 serving calls x (9 single operations + 36 pairs + 84 triples); every round uses fresh offsets
     n = 258 * (4 if tier == "quick" else 60)
-    return [("race", ["-n", str(n)]), ("regguard", ["-n", str(300 if tier == "quick" else 6000)])]
+    return [("race", ["-n", str(n)]), ("regguard", ["-n", str(300 if tier == "quick" else 6000)]),
+            # connections that must not share anything: one closed twice, then three open at once; two big replies under way
+            # at the same time (what a shared reader or buffer does there is visible without the detector)
+            ("scale", ["-n", "2" if tier == "quick" else "4"])]
 
 
 def _cancel_streams(tier):
@@ -14,7 +17,9 @@ def _cancel_streams(tier):
             # the context handed to a handler is its connection's: live while connected, cancelled once it has ended
             ("connctx", ["-n", "12" if tier == "quick" else "200"]),
             # Read and Write at the same time on an upgraded connection: each completes with its own result
-            ("duplex", ["-n", "12" if tier == "quick" else "200"])]
+            ("duplex", ["-n", "12" if tier == "quick" else "200"]),
+            # state that outlives one operation (a given-up Send, unread replies at Close, flags of the previous call)
+            ("history", ["-n", "8" if tier == "quick" else "32"])]
 
 
 PROPS = {
